@@ -2255,3 +2255,66 @@ Proof.
   - assert (Ex : g_x g1 = g_x g) by now rewrite E1.
     rewrite Ex in H. exact H.
 Qed.
+
+(* ================================================================== *)
+(* N. The key is plain concatenation: whatever characters the subtable  *)
+(*    and the owner's name contain, owners bound under different names  *)
+(*    get different topics for the same tunable                         *)
+(* ================================================================== *)
+
+Lemma string_length_append : forall a b : string,
+  String.length (a ++ b) = (String.length a + String.length b)%nat.
+Proof. induction a as [|c a IH]; intros b; simpl; [reflexivity | now rewrite IH]. Qed.
+
+Lemma append_inj_r : forall a b r : string, a ++ r = b ++ r -> a = b.
+Proof.
+  induction a as [|c a IH]; intros [|d b] r H; simpl in H.
+  - reflexivity.
+  - apply (f_equal String.length) in H. simpl in H. rewrite string_length_append in H. lia.
+  - apply (f_equal String.length) in H. simpl in H. rewrite string_length_append in H. lia.
+  - injection H as -> H. f_equal. now apply (IH b r).
+Qed.
+
+(* the part of the key after the owner's table does not depend on the owner *)
+Definition key_tail (s : option string) (n : string) : string :=
+  match s with
+  | None => "/" ++ n
+  | Some s' => if String.eqb s' "" then "/" ++ n else "/" ++ s' ++ "/" ++ n
+  end.
+
+Lemma key_in_tail : forall pfx s n, key_in pfx s n = pfx ++ key_tail s n.
+Proof.
+  intros pfx [s'|] n; unfold key_in, key_tail; [|reflexivity].
+  destruct (String.eqb s' ""); reflexivity.
+Qed.
+
+(* a non-empty subtable string S is inserted VERBATIM, slashes, dots and all *)
+Theorem key_verbatim : forall p c S A, S <> "" ->
+  key_of p c (Some S) A = key_prefix p c ++ "/" ++ S ++ "/" ++ A.
+Proof.
+  intros p c S A HS. unfold key_of, key_in.
+  destruct (String.eqb S "") eqn:E; [apply String.eqb_eq in E; contradiction | reflexivity].
+Qed.
+
+(* same prefix, same tunable (subtable, attribute), names with ANY characters *)
+Theorem key_of_inj_name : forall p c1 c2 s a,
+  key_of p c1 s a = key_of p c2 s a -> c1 = c2.
+Proof.
+  intros p c1 c2 s a H. unfold key_of in H. rewrite !key_in_tail in H.
+  apply append_inj_r in H. unfold key_prefix in H. destruct p as [p|].
+  - rewrite <- !append_assoc in H. now apply append_inj_l in H.
+  - now apply append_inj_l in H.
+Qed.
+
+Theorem key_of_other_name : forall p c1 c2 s a, c1 <> c2 -> key_of p c1 s a <> key_of p c2 s a.
+Proof. intros p c1 c2 s a Hne H. apply Hne. eapply key_of_inj_name; eassumption. Qed.
+
+(* ... and across the three documented owner kinds *)
+Theorem owner_key_inj : forall o1 o2 s a, owner_key o1 s a = owner_key o2 s a -> o1 = o2.
+Proof.
+  intros o1 o2 s a H. unfold owner_key in H.
+  destruct o1 as [n1|n1|], o2 as [n2|n2|]; cbn [owner_prefix owner_cname] in H;
+    try (apply key_of_inj_name in H; now subst);
+    try reflexivity;
+    unfold key_of in H; rewrite !key_in_tail in H; cbn in H; discriminate H.
+Qed.
